@@ -1,65 +1,261 @@
-From Coq Require Import NArith List Bool Lia.
-Import ListNotations. Open Scope N_scope.
+(* C20 / C12 — the per-user cache of converted annotations ($HOME/.config/IsoQuant/db_config.json and its three siblings).
 
-(* The shared JSON cache: a dictionary key -> value, or unreadable (empty / half-written). *)
-Notation dict := (list (N * N)).
-Inductive pc := Start | Loaded | Truncated | Done | Crashed.
-Record proc := { p_key : N; p_val : N; p_pc : pc; p_local : dict }.
-Record world := { file : option dict; procs : list proc }.
+   Anchors:  isoquant.py set_configs_directory; src/gtf2db.py convert_db / find_converted_db / compare_stored_gtf;
+             src/read_mapper.py find_stored_* / store_* (same read-modify-write cycle, with a second read before the write).
 
-Definition upd (d:dict) (k v:N) : dict := (k, v) :: filter (fun e => negb (fst e =? k)) d.
+   The model has three layers.
+   1. The cache-hit predicates, field by field (`find_converted_db`, `compare_stored_gtf`, the db2gtf loop of convert_db),
+      over an abstract file system path -> (mtime, content).
+   2. One process = a straight-line program of atomic operations on the shared cache file and the file system; the two
+      write protocols are two programs:  in place  (`open(path,'w')` = truncate, then `json.dump` + close)  and
+      atomic (dump to a private temporary file, then `os.replace`).
+   3. A world = shared file + file system + clock + n processes; a schedule is a list of process indices.
 
-(* one step of one process; `atomic` selects the repaired protocol (write aside + atomic replace) *)
-Definition step1 (atomic:bool) (f:option dict) (p:proc) : option dict * proc :=
-  match p_pc p with
-  | Start => match f with
-             | Some d => (f, {| p_key := p_key p; p_val := p_val p; p_pc := Loaded; p_local := upd d (p_key p) (p_val p) |})
-             | None => (f, {| p_key := p_key p; p_val := p_val p; p_pc := Crashed; p_local := [] |})     (* json.load fails *)
+   The shared file is  Absent | Data (Some d) len  (a complete JSON text of d, len bytes) | Data None len  (anything a
+   reader cannot parse: empty after truncation, or a complete text followed by the tail of a longer one).  A writer that
+   opened the file with 'w' writes its text at ITS offset 0: over a file that meanwhile grew longer than that text the
+   result is unparseable for good ("Extra data") — `write`. *)
+From Coq Require Import ZArith NArith List Bool Lia.
+From IQ Require Import CorrSupport.
+Import ListNotations. Open Scope Z_scope.
+
+Notation path := Z.
+
+(* ------------------------------------------------------------------ files *)
+Inductive content :=
+| Gtf (a : Z)                 (* an annotation text, identified by a *)
+| Db (a : Z) (c : bool).      (* the gffutils database built from text a with (c = true) or without --complete_genedb *)
+Record fstat := mkstat { f_mtime : Z; f_content : content }.
+Definition fsys := path -> option fstat.
+Definition fs_empty : fsys := fun _ => None.
+Definition fs_set (fs : fsys) (p : path) (s : fstat) : fsys := fun q => if q =? p then Some s else fs q.
+Fixpoint fs_of_list (l : list (path * fstat)) : fsys :=
+  match l with [] => fs_empty | (p, s) :: t => fs_set (fs_of_list t) p s end.
+
+(* os.path.exists(p) ; os.path.getmtime(p) == m  where m comes from dict.get (None when the field is missing) *)
+Definition exists_ (fs : fsys) (p : path) : bool := match fs p with Some _ => true | None => false end.
+Definition mtime_is (fs : fsys) (p : path) (m : option Z) : bool :=
+  match fs p, m with Some s, Some m => f_mtime s =? m | _, _ => false end.
+
+(* ------------------------------------------------------------------ the JSON dictionary *)
+(* one value of db_config.json: {'genedb':…, 'gtf_mtime':…, 'db_mtime':…, 'complete_db':…}; a field may be missing *)
+Record entry := mkentry { e_genedb : option path; e_gtf_mtime : option Z; e_db_mtime : option Z; e_complete : option bool }.
+Notation dict := (list (path * entry)).          (* a Python dict: insertion-ordered, keys unique *)
+Fixpoint dget (d : dict) (k : path) : option entry :=
+  match d with [] => None | (k', e) :: t => if k' =? k then Some e else dget t k end.
+(* d[k] = e : in place when the key is present, appended otherwise *)
+Fixpoint dset (d : dict) (k : path) (e : entry) : dict :=
+  match d with [] => [(k, e)] | (k', e') :: t => if k' =? k then (k, e) :: t else (k', e') :: dset t k e end.
+(* d.get(k, {}).get(field) *)
+Definition field {A} (d : dict) (k : path) (f : entry -> option A) : option A :=
+  match dget d k with Some e => f e | None => None end.
+Definition obool_eqb (a b : option bool) : bool :=
+  match a, b with Some x, Some y => Bool.eqb x y | None, None => true | _, _ => false end.
+
+(* ------------------------------------------------------------------ cache-hit predicates (src/gtf2db.py) *)
+(* find_converted_db(converted_gtfs, gtf_filename, complete_genedb); `os.path.exists(None)` raises TypeError (3),
+   reached only when the entry matches the GTF's mtime but has no 'genedb' field *)
+Definition find_converted_db (d : dict) (g : path) (c : bool) (fs : fsys) : outcome (option path) :=
+  let gtf_mtime := field d g e_gtf_mtime in
+  let db_mtime := field d g e_db_mtime in
+  let db_file := field d g e_genedb in
+  let is_complete := field d g e_complete in
+  if exists_ fs g && mtime_is fs g gtf_mtime then
+    match db_file with
+    | None => Raises 3%N
+    | Some r => if exists_ fs r && mtime_is fs r db_mtime && obool_eqb (Some c) is_complete then Ok (Some r) else Ok None
+    end
+  else Ok None.
+
+(* compare_stored_gtf(converted_gtfs, gtf_filename, genedb_filename).  `checkpath` = the repaired predicate
+   (fixes/C20_db2gtf_compare_db_path.diff), which also compares the recorded database path. *)
+Definition opath_eqb (a : option path) (b : path) : bool := match a with Some x => x =? b | None => false end.
+Definition compare_stored_gtf (checkpath : bool) (d : dict) (g : path) (db : path) (fs : fsys) : bool :=
+  exists_ fs g && mtime_is fs g (field d g e_gtf_mtime) && exists_ fs db && mtime_is fs db (field d g e_db_mtime)
+  && (if checkpath then opath_eqb (field d g e_genedb) db else true).
+(* the db2gtf branch of convert_db: the first key (dict order) that passes *)
+Definition find_converted_gtf (checkpath : bool) (d : dict) (db : path) (fs : fsys) : option path :=
+  match find (fun ke => compare_stored_gtf checkpath d (fst ke) db fs) d with Some ke => Some (fst ke) | None => None end.
+
+(* ------------------------------------------------------------------ processes *)
+Inductive op :=
+| OExists        (* set_configs_directory: os.path.exists(config_path); remembers "absent" *)
+| OInitTrunc     (* in place, only when absent: open(config_path,'w')  — creates the file, empty *)
+| OInitDump      (* in place, only when absent: json.dump({}) + close *)
+| OInitReplace   (* atomic,   only when absent: dump {} aside, os.replace *)
+| ORead          (* open(path,'r') + json.load *)
+| OLookup        (* find_converted_db on the loaded dictionary; a hit ends the program *)
+| OConvert       (* gtf2db: (re)writes the process's own database file *)
+| OModify        (* converted_gtfs[gtf] = {... getmtime(gtf), getmtime(db) ...} *)
+| OTrunc         (* in place: open(path,'w') *)
+| ODump          (* in place: json.dump(converted_gtfs) + close *)
+| OReplace.      (* atomic: dump aside, os.replace(tmp, path) *)
+
+Inductive status := Running | Done (r : option path) | Crashed (k : Z).
+(* crash kinds: 1 JSONDecodeError, 2 FileNotFoundError (cache file), 3 TypeError, 4 conversion failed, 5 OSError in getmtime *)
+
+Record proc := mkproc {
+  p_gtf : path; p_out : path; p_complete : bool;     (* the run's input annotation, its own database path, --complete_genedb *)
+  p_len : Z;                                         (* byte length of the JSON text it dumps (observed, any value in the theorems) *)
+  p_prog : list op; p_local : dict; p_st : status;
+  p_absent : bool;                                   (* result of OExists *)
+  p_conv : bool }.                                   (* it has run its conversion *)
+Definition pupd (p : proc) (prog : list op) (local : dict) (st : status) (absent conv : bool) : proc :=
+  mkproc (p_gtf p) (p_out p) (p_complete p) (p_len p) prog local st absent conv.
+
+Inductive fstate := Absent | Data (v : option dict) (len : Z).
+Record shared := mkshared { s_file : fstate; s_fs : fsys; s_clock : Z }.
+
+(* a writer holding a handle opened with 'w' (offset 0) writes n bytes *)
+Definition write (f : fstate) (v : option dict) (n : Z) : fstate :=
+  match f with Absent => Data v n | Data _ len => if len <=? n then Data v n else Data None len end.
+
+Definition crash (p : proc) (k : Z) : proc := pupd p [] (p_local p) (Crashed k) (p_absent p) (p_conv p).
+Definition next (p : proc) (rest : list op) : proc := pupd p rest (p_local p) (p_st p) (p_absent p) (p_conv p).
+
+Definition exec (o : op) (rest : list op) (sh : shared) (p : proc) : shared * proc :=
+  let f := s_file sh in let fs := s_fs sh in let ck := s_clock sh in
+  match o with
+  | OExists => (sh, pupd p rest (p_local p) (p_st p) (match f with Absent => true | _ => false end) (p_conv p))
+  | OInitTrunc => if p_absent p then (mkshared (Data None 0) fs ck, next p rest) else (sh, next p rest)
+  | OInitDump => if p_absent p then (mkshared (write f (Some []) 2) fs ck, next p rest) else (sh, next p rest)
+  | OInitReplace => if p_absent p then (mkshared (Data (Some []) 2) fs ck, next p rest) else (sh, next p rest)
+  | ORead => match f with
+             | Data (Some d) _ => (sh, pupd p rest d (p_st p) (p_absent p) (p_conv p))
+             | Data None _ => (sh, crash p 1)
+             | Absent => (sh, crash p 2)
              end
-  | Loaded => if atomic
-              then (Some (p_local p), {| p_key := p_key p; p_val := p_val p; p_pc := Done; p_local := p_local p |})      (* os.replace *)
-              else (None, {| p_key := p_key p; p_val := p_val p; p_pc := Truncated; p_local := p_local p |})              (* open(path,'w') *)
-  | Truncated => (Some (p_local p), {| p_key := p_key p; p_val := p_val p; p_pc := Done; p_local := p_local p |})        (* dump + close *)
-  | Done | Crashed => (f, p)
+  | OLookup => match find_converted_db (p_local p) (p_gtf p) (p_complete p) fs with
+               | Ok (Some r) => (sh, pupd p [] (p_local p) (Done (Some r)) (p_absent p) (p_conv p))
+               | Ok None => (sh, next p rest)
+               | Raises _ => (sh, crash p 3)
+               end
+  | OConvert => match fs (p_gtf p) with
+                | Some (mkstat _ (Gtf a)) =>
+                    (mkshared f (fs_set fs (p_out p) (mkstat ck (Db a (p_complete p)))) (ck + 1),
+                     pupd p rest (p_local p) (p_st p) (p_absent p) true)
+                | _ => (sh, crash p 4)
+                end
+  | OModify => match fs (p_gtf p), fs (p_out p) with
+               | Some sg, Some sd =>
+                   (sh, pupd p rest (dset (p_local p) (p_gtf p) (mkentry (Some (p_out p)) (Some (f_mtime sg)) (Some (f_mtime sd)) (Some (p_complete p))))
+                             (p_st p) (p_absent p) (p_conv p))
+               | _, _ => (sh, crash p 5)
+               end
+  | OTrunc => (mkshared (Data None 0) fs ck, next p rest)
+  | ODump => (mkshared (write f (Some (p_local p)) (p_len p)) fs ck, next p rest)
+  | OReplace => (mkshared (Data (Some (p_local p)) (p_len p)) fs ck, next p rest)
   end.
 
-Fixpoint step_nth (atomic:bool) (f:option dict) (ps:list proc) (i:nat) : option dict * list proc :=
+(* the program ran to its end: the run goes on with its own database if it built one *)
+Definition fin (p : proc) : proc :=
+  match p_st p, p_prog p with
+  | Running, [] => pupd p [] (p_local p) (Done (if p_conv p then Some (p_out p) else None)) (p_absent p) (p_conv p)
+  | _, _ => p
+  end.
+
+Definition step1 (sh : shared) (p : proc) : shared * proc :=
+  match p_st p, p_prog p with
+  | Running, o :: rest => let '(sh', p') := exec o rest sh p in (sh', fin p')
+  | _, _ => (sh, p)
+  end.
+
+Fixpoint step_nth (sh : shared) (ps : list proc) (i : nat) : shared * list proc :=
   match ps, i with
-  | [], _ => (f, [])
-  | p::t, O => let '(f', p') := step1 atomic f p in (f', p'::t)
-  | p::t, S j => let '(f', t') := step_nth atomic f t j in (f', p::t')
+  | [], _ => (sh, [])
+  | p :: t, O => let '(sh', p') := step1 sh p in (sh', p' :: t)
+  | p :: t, Datatypes.S j => let '(sh', t') := step_nth sh t j in (sh', p :: t')
   end.
-Definition step (atomic:bool) (w:world) (i:nat) : world := let '(f, ps) := step_nth atomic (file w) (procs w) i in {| file := f; procs := ps |}.
-Definition run (atomic:bool) (w:world) (sched:list nat) : world := fold_left (step atomic) sched w.
 
-(* ---------- repaired protocol: for EVERY schedule and EVERY number of processes ---------- *)
-Definition proc_ok (p:proc) := p_pc p <> Crashed /\ p_pc p <> Truncated.
-Definition inv (w:world) := (exists d, file w = Some d) /\ Forall proc_ok (procs w).
+Record world := mkworld { w_sh : shared; w_procs : list proc }.
+Definition step (w : world) (i : nat) : world := let '(sh, ps) := step_nth (w_sh w) (w_procs w) i in mkworld sh ps.
+Definition run (w : world) (sched : list nat) : world := fold_left step sched w.
 
-Lemma step1_atomic_ok d p : proc_ok p -> exists d', fst (step1 true (Some d) p) = Some d' /\ proc_ok (snd (step1 true (Some d) p)).
-Proof. intros [H1 H2]. unfold step1. destruct (p_pc p) eqn:E; try congruence; simpl;
-  eexists; (split; [reflexivity|]); unfold proc_ok; simpl; rewrite ?E; split; congruence. Qed.
+(* ------------------------------------------------------------------ the programs of the real code *)
+Definition prog_init (atomic : bool) : list op := if atomic then [OExists; OInitReplace] else [OExists; OInitTrunc; OInitDump].
+Definition prog_write (atomic : bool) : list op := if atomic then [OReplace] else [OTrunc; ODump].
+(* convert_db(…, gtf2db, args) *)
+Definition prog_convert_db (atomic clean : bool) : list op :=
+  ORead :: (if clean then [] else [OLookup]) ++ [OConvert; OModify] ++ prog_write atomic.
+(* isoquant.py up to the end of convert_gtf_to_db *)
+Definition prog_run (atomic clean : bool) : list op := prog_init atomic ++ prog_convert_db atomic clean.
+(* read_mapper: find_stored_X (read, lookup); build; store_X (read again, modify, write) *)
+Definition prog_stored (atomic : bool) : list op := [ORead; OLookup; OConvert; ORead; OModify] ++ prog_write atomic.
 
-Lemma step_nth_atomic_ok : forall ps i d, Forall proc_ok ps ->
-  exists d', fst (step_nth true (Some d) ps i) = Some d' /\ Forall proc_ok (snd (step_nth true (Some d) ps i)).
-Proof. induction ps as [|p t IH]; intros i d H; [exists d; simpl; auto|].
-  inversion H; subst. destruct i as [|j]; cbn [step_nth].
-  - destruct (step1_atomic_ok d p H2) as [d' [E1 E2]]. destruct (step1 true (Some d) p) as [f' p']. simpl in *. exists d'. split; auto.
-  - destruct (IH j d H3) as [d' [E1 E2]]. destruct (step_nth true (Some d) t j) as [f' t']. simpl in *. exists d'. split; auto. Qed.
+Definition mkp (g out : path) (c : bool) (len : Z) (prog : list op) : proc := mkproc g out c len prog [] Running false false.
 
-Theorem reader_never_sees_partial : forall sched w, inv w -> inv (run true w sched).
-Proof. induction sched as [|i t IH]; intros w Hw; [exact Hw|]. cbn [run fold_left]. apply IH.
-  destruct Hw as [[d Hd] Hp]. unfold step. rewrite Hd.
-  destruct (step_nth_atomic_ok (procs w) i d Hp) as [d' [E1 E2]].
-  destruct (step_nth true (Some d) (procs w) i) as [f' ps']. simpl in *. split; [exists d'; exact E1|exact E2]. Qed.
+(* ------------------------------------------------------------------ observation (what the replay harness compares) *)
+(* the event a step is going to perform, None when the step is silent in the real process *)
+Definition op_code (o : op) : Z :=
+  match o with OExists => 1 | OInitTrunc => 2 | OInitDump => 3 | OInitReplace => 4 | ORead => 5 | OLookup => 6 | OConvert => 7
+          | OModify => 8 | OTrunc => 2 | ODump => 3 | OReplace => 4 end.
+Definition op_event (p : proc) : option Z :=
+  match p_st p, p_prog p with
+  | Running, o :: _ => match o with
+                       | OInitTrunc | OInitDump | OInitReplace => if p_absent p then Some (op_code o) else None
+                       | OModify | OLookup => None       (* no operation on the shared file *)
+                       | _ => Some (op_code o)
+                       end
+  | _, _ => None
+  end.
+Fixpoint trace (w : world) (sched : list nat) : list (nat * Z) :=
+  match sched with
+  | [] => []
+  | i :: t => match nth_error (w_procs w) i with
+              | Some p => match op_event p with Some c => [(i, c)] | None => [] end
+              | None => []
+              end ++ trace (step w i) t
+  end.
 
-(* ---------- current protocol: two processes, one schedule suffices ---------- *)
-Definition mkp k v := {| p_key := k; p_val := v; p_pc := Start; p_local := [] |}.
-Definition w0 := {| file := Some []; procs := [mkp 1 10; mkp 2 20] |}.
-Example reader_sees_partial_refuted :
-  exists sched, Exists (fun p => p_pc p = Crashed) (procs (run false w0 sched)).
-Proof. exists [0; 0; 1]%nat. vm_compute. apply Exists_cons_tl, Exists_cons_hd. reflexivity. Qed.
-(* and a lost update, harmless: the survivor's dictionary lacks the other entry *)
-Example lost_update : file (run true w0 [0; 1; 0; 1]%nat) = Some [(2, 20)].
+(* a dictionary as the harness sees it: paths and flags verbatim, an mtime only as "equals the file's current mtime" *)
+Definition abs_entry (fs : fsys) (ke : path * entry) : path * (option path * bool * bool * option bool) :=
+  let '(k, e) := ke in
+  (k, (e_genedb e, mtime_is fs k (e_gtf_mtime e), match e_genedb e with Some r => mtime_is fs r (e_db_mtime e) | None => false end, e_complete e)).
+Definition abs_file (sh : shared) : option (option (list (path * (option path * bool * bool * option bool)))) :=
+  match s_file sh with
+  | Absent => None
+  | Data None _ => Some None
+  | Data (Some d) _ => Some (Some (map (abs_entry (s_fs sh)) d))
+  end.
+Definition abs_status (p : proc) : Z * Z :=
+  match p_st p with Running => (0, 0) | Done None => (1, -1) | Done (Some r) => (1, r) | Crashed k => (2, k) end.
+
+(* ------------------------------------------------------------------ witnesses against the in-place protocol *)
+Definition g1 := 1. Definition g2 := 2. Definition o1 := 11. Definition o2 := 12. Definition o3 := 13.
+Definition fs0 : fsys := fs_of_list [(g1, mkstat 1 (Gtf 100)); (g2, mkstat 2 (Gtf 200))].
+Definition sh_existing : shared := mkshared (Data (Some []) 2) fs0 10.     (* a HOME that has been used before *)
+Definition sh_fresh : shared := mkshared Absent fs0 10.                      (* a new HOME *)
+Definition two (atomic : bool) (l1 l2 : Z) : list proc :=
+  [mkp g1 o1 true l1 (prog_run atomic false); mkp g2 o2 true l2 (prog_run atomic false)].
+Definition crashed (p : proc) : bool := match p_st p with Crashed _ => true | _ => false end.
+Definition done_ok (p : proc) : bool := match p_st p with Done _ => true | _ => false end.
+
+(* (a) a used HOME: P0 truncates, P1 reads the empty file: JSONDecodeError *)
+Definition sched_partial : list nat := [0; 0; 0; 0; 0; 0; 0; 0; 1; 1; 1; 1; 0]%nat.
+Example inplace_reader_sees_partial :
+  map abs_status (w_procs (run (mkworld sh_existing (two false 120 120)) sched_partial)) = [(1, o1); (2, 1)].
 Proof. vm_compute. reflexivity. Qed.
-Print Assumptions reader_never_sees_partial.
+(* (b) a new HOME, both start together: P0 creates the file, P1 finds it present and reads it empty *)
+Definition sched_fresh : list nat := [0; 0; 1; 1; 1; 1; 0; 0; 0; 0; 0; 0; 0]%nat.
+Example inplace_fresh_home_crash :
+  map abs_status (w_procs (run (mkworld sh_fresh (two false 120 120)) sched_fresh)) = [(1, o1); (2, 1)].
+Proof. vm_compute. reflexivity. Qed.
+(* (c) both truncate, the longer text is written first: the file is unparseable for good, and a third run started
+       afterwards dies too *)
+Definition sched_corrupt : list nat := [0; 0; 0; 0; 0; 0; 0; 1; 1; 1; 1; 1; 1; 1; 0; 1; 0; 1; 2; 2; 2; 2]%nat.
+Definition three_inplace : list proc := two false 140 120 ++ [mkp g1 o3 true 130 (prog_run false false)].
+Example inplace_corrupt_forever :
+  let w := run (mkworld sh_existing three_inplace) sched_corrupt in
+  abs_file (w_sh w) = Some None /\ map abs_status (w_procs w) = [(1, o1); (1, o2); (2, 1)].
+Proof. vm_compute. split; reflexivity. Qed.
+(* the same three schedules under the atomic protocol *)
+Example atomic_same_schedules :
+  forallb done_ok (w_procs (run (mkworld sh_existing (two true 120 120)) (sched_partial ++ [1; 1; 1; 1; 1; 1]%nat))) = true /\
+  forallb done_ok (w_procs (run (mkworld sh_fresh (two true 120 120)) (sched_fresh ++ [1; 1; 1; 1; 1; 1]%nat))) = true /\
+  forallb done_ok (w_procs (run (mkworld sh_existing (two true 140 120 ++ [mkp g1 o3 true 130 (prog_run true false)])) (sched_corrupt ++ [2; 2; 2; 2; 2; 2]%nat))) = true.
+Proof. vm_compute. repeat split; reflexivity. Qed.
+(* a lost update under the atomic protocol: both read {}, both store; the survivor lacks P0's entry *)
+Definition sched_lost : list nat := [0; 0; 1; 1; 0; 1; 0; 1; 0; 1; 0; 1; 0; 1]%nat.
+Example atomic_lost_update :
+  abs_file (w_sh (run (mkworld sh_existing (two true 120 120)) sched_lost)) = Some (Some [(g2, (Some o2, true, true, Some true))]).
+Proof. vm_compute. reflexivity. Qed.
